@@ -95,7 +95,7 @@ motion: a chunk that is new to the index but not empty (`newChk && firstRec > 0`
 is the one after the rebuilder ran. This is the situation after a start without a usable snapshot when the first thing
 that touches a partition is a write. -/
 def cindexOnWriteR (m : CMap) (src : Src) (cid : Nat) (before batch : List Int) (mn mx : Int) : CMap :=
-  let m1 := cindexOnWrite m src cid mn mx
+  let m1 := cindexOnWrite m src cid mn mx (before.length + batch.length)
   if onWriteNewChk m src cid && !before.isEmpty && onWriteNewChunkMidwayRebuilds then
     match alookup m1 src with
     | some sc =>
